@@ -126,7 +126,7 @@ class Lab:
             src = self.dir / f"h_{tag}.c"
             src.write_text(emit_c.CEmitter(self.ctypes).emit(self.header_paths(".h")))
             exe = self.dir / f"h_{tag}"
-            cmd = [CLANG, "-std=c11", *flags, "-Wall", "-Wno-unused-function", "-I", str(gen), str(src), "-o", str(exe), "-lm"]
+            cmd = [CLANG, "-std=c11", *flags, "-Wall", "-Wno-unused-function", "-Wno-deprecated-declarations", "-I", str(gen), str(src), "-o", str(exe), "-lm"]
             if o["asserts"]:
                 cmd.insert(1, "-DVF_ASSERTS")
             for macro, val in (cap_overrides or {}).items():
@@ -136,12 +136,13 @@ class Lab:
             src.write_text(emit_cpp.CppEmitter(self.ctypes).emit(self.header_paths(".hpp"), MINIVEC_OVERLOADS if o.get("container") == "minivec" else ""))
             exe = self.dir / f"h_{tag}"
             std = {"c++17-pmr": "c++17"}.get(o["std"], o["std"])
-            cmd = [CLANGXX, f"-std={std}", *flags, "-Wall", "-Wno-unused-function", "-I", str(gen), str(src), "-o", str(exe)]
+            cmd = [CLANGXX, f"-std={std}", *flags, "-Wall", "-Wno-unused-function", "-Wno-deprecated-declarations", "-I", str(gen), str(src), "-o", str(exe)]
             if o["asserts"]:
                 cmd.insert(1, "-DVF_ASSERTS")
         p = subprocess.run(cmd, capture_output=True, text=True)
         if p.returncode != 0:
-            raise LabError(f"harness build failed for {key}: {' '.join(cmd)}\n{p.stderr[:3000]}")
+            errs = [l for l in p.stderr.splitlines() if "error" in l] or p.stderr.splitlines()
+            raise LabError(f"harness build failed for {key}: {' '.join(cmd)}\n" + "\n".join(errs[:12]))
         self.built[bkey] = ("exe", exe)
         return self.built[bkey]
 
@@ -216,6 +217,10 @@ def py_schema(t) -> dict:
         "module": mod,
         "path": path,
         "fields": [[f.name, py_schema(f.data_type)] for f in fields],
+        "consts": [
+            [c.name, c.name, "b" if isinstance(c.data_type, pydsdl.BooleanType) else "f" if isinstance(c.data_type, pydsdl.FloatType) else "i" if isinstance(c.data_type, pydsdl.SignedIntegerType) else "u"]
+            for c in t.constants
+        ],
     }
 
 
